@@ -3,6 +3,7 @@ judge the recorded traces with TLC, collect verdicts and write evidence."""
 import fcntl
 import hashlib
 import json
+import zlib
 import os
 import re
 import shutil
@@ -188,6 +189,9 @@ def campaign(name, programs, workdir, feat="ref", spec="TraceFatFs", n_shards=No
         ef = os.path.join(workdir, "%s-e%02d.ndjson" % (name, k))
         with open(pf, "w") as f:
             for p in sh:
+                if mode == "run" and isinstance(p.get("cfg"), dict) and "optord" not in p["cfg"]:
+                    # the order of the FsOptions builder calls is free: every program fixes one, derived from its name
+                    p = dict(p, cfg=dict(p["cfg"], optord=zlib.crc32(str(p.get("id")).encode()) % 5))
                 f.write(json.dumps(p, separators=(",", ":")) + "\n")
         files.append((k, pf, ef))
     t0 = time.time()
